@@ -65,7 +65,8 @@ def replay(kind, h, handshakes):
 def random_trace(rng, tls, nconn, steps):
     """drive a real server; returns list of events with observations"""
     conns = list(range(1, nconn + 1))
-    rig = tcpadapt.ServerRig(tls, conns, handshakes=tls)
+    gone = [c for c in conns if rng.random() < 0.15]          # peers that reset before the server accepted them
+    rig = tcpadapt.ServerRig(tls, conns, handshakes=tls, gone=gone, wirelog=rng.random() < 0.5)
     tr = []
     kern = {c: 0 for c in conns}
     names = ERRNOS + (["SSLEOF"] if tls else [])
@@ -80,8 +81,17 @@ def random_trace(rng, tls, nconn, steps):
             return rng.choice([["ok"], ["ok"], ["block"]] + ([["blockw"]] if tls else []))
         return rng.choice([["acc", 1], ["acc", 9], ["block"]] + ([["blockw"]] if tls else []))
     try:
+        def observe():
+            obs = []
+            for k in conns:
+                o = rig.obs(k)
+                obs.append({"hs": o["hs"], "wire": len(o["wire"]), "ntx": len(o["txbs"] or b""), "rx": len(o["rxbs"] or b""),
+                            "cutoff": bool(o["cutoff"])})
+            return obs
+        tr.append({"op": "accept", "c": 0, "a": [c in gone for c in conns], "obs": observe(), "raised": bool(rig.err),
+                   "err": ("accepting connections (peers %s had reset) raised %s" % (gone, rig.err)) if rig.err else None})
         if rig.err:
-            return [{"op": "pass", "c": 0, "a": [], "obs": [], "raised": True, "err": "accepting connections raised " + rig.err}]
+            return tr
         for _ in range(steps):
             r = rng.random()
             c = rng.choice(conns)
